@@ -160,8 +160,10 @@ func (g *c16) collLossy(e ecfg, uo bool, thr *float64, init []idv, scripts [][]i
 	}
 	var ej []any
 	ec := make([]string, len(emitted))
+	kc := make([]int64, len(emitted))
 	for i, t := range emitted {
 		ec[i] = vcoq.Pair(vcoq.Pair(vcoq.Str(t.id), coqOptMsg(t.old)), coqOptMsg(t.new))
+		kc[i] = int64(t.kind) // types.ChangeType: ADD 1, UPDATE 2, REMOVE 3, REPLACE 4
 		ej = append(ej, map[string]any{"id": t.id, "type": t.kind.String(), "old": jsMsg(t.old), "new": jsMsg(t.new)})
 	}
 	js["emitted"] = ej
@@ -187,7 +189,7 @@ func (g *c16) collLossy(e ecfg, uo bool, thr *float64, init []idv, scripts [][]i
 		tc = "(Some " + coqQ(*thr) + ")"
 		guard = guard && smallDyadic(*thr)
 	}
-	coq := vcoq.App("KCollL", e.coq(), vcoq.Bool(uo), tc, vcoq.List(ic), vcoq.List(pc), vcoq.List(ec))
+	coq := vcoq.App("KCollL", e.coq(), vcoq.Bool(uo), tc, vcoq.List(ic), vcoq.List(pc), vcoq.List(ec), vcoq.ListZ(kc))
 	tags = append(tags, "collection-lossy", "collection-lossy:"+e.tag(), fmt.Sprintf("collection-lossy:updates-only=%v", uo),
 		fmt.Sprintf("collection-lossy:include=%v", thr != nil), fmt.Sprintf("collection-lossy:replace-delivered:%d", min(replaces, 3)),
 		fmt.Sprintf("collection-lossy:writes-minus-deliveries:%d", min(max(nops-(len(emitted)-2*len(phases)-btoi(!uo)*len(init)), 0), 6)), guardTag(guard))
